@@ -48,3 +48,27 @@ theorem exec_liftStE {β} (f : St → St × Except Exc β) (c : Conv α) :
 
 end
 end Measured
+
+namespace Measured
+section
+variable {α : Type}
+
+theorem exec_tryCatch {β} (m : CM α β) (h : Exc → CM α β) (c : Conv α) :
+    CM.exec (tryCatch m h) c =
+      match CM.exec m c with
+      | (.ok a, c') => (.ok a, c')
+      | (.error e, c') => CM.exec (h e) c' := by
+  unfold CM.exec
+  show (ExceptT.run (ExceptT.tryCatch m h)).run c = _
+  unfold ExceptT.tryCatch
+  simp only [ExceptT.run_mk, StateT.run_bind]
+  cases hm : (ExceptT.run m).run c with
+  | mk r c' =>
+    have hm' : StateT.run m c = (r, c') := hm
+    rw [hm']
+    cases r with
+    | ok a => rfl
+    | error e => rfl
+
+end
+end Measured
